@@ -522,7 +522,7 @@ impl World {
                     Err(e) => res!(Err::<(), _>(e)),
                 }
             }
-            "r" | "p" | "g" | "k" | "z" | "w" => {
+            "r" | "p" | "g" | "k" | "z" | "w" | "R" => {
                 let Some(fid) = self.fslots.get(parts[1]).copied() else { return "nofolder".into() };
                 let mut account = acct.lock().await;
                 if account.folder(&fid).await.is_err() {
@@ -539,6 +539,8 @@ impl World {
                         res!(account.update_folder_flags(&fid, VaultFlags::from_bits_truncate(bits)).await)
                     }
                     "k" => res!(account.delete_folder(&fid).await),
+                    // forget a folder: dropped from the in-memory collections only
+                    "R" => res!(account.forget_folder(&fid).await),
                     "z" => res!(account.compact_folder(&fid).await),
                     _ => {
                         use sos_login::DelegatedAccess;
